@@ -72,11 +72,14 @@ def collectArgs : List HTok → Nat → List HTok → List (List HTok) →
       else collectArgs rest depth (cur ++ [t]) acc
     | _ => collectArgs rest depth (cur ++ [t]) acc
 
-/-- result of pasting two tokens (`none`: not a valid token); only word-like operands are in the subset -/
+/-- result of pasting two tokens (`none`: not a valid token): an identifier with an identifier or a number, a number
+with a number, and the two-character operators (`Model.Macro.punctMerges`, compared with the lexer by
+`Thm.C12.paste_matches_lexer`) -/
 def pasteTok : Tok → Tok → Option Tok
   | .id a, .id b => some (.id (a ++ b))
   | .id a, .int b => some (.id (a ++ b))
   | .int a, .int b => some (.int (a ++ b))
+  | .punct a, .punct b => if punctMerges.contains (a, b) then some (.punct (a ++ b)) else none
   | _, _ => none
 
 /-- an item of a replacement list after parameter replacement -/
@@ -189,8 +192,9 @@ def ppTokens (ts : List PTok) : List Tok :=
 
 def plain (ts : List Tok) : List HTok := ts.map (⟨·, []⟩)
 
-/-- the reference reading of a model macro: parameters are named by position -/
-def paramName (i : Nat) : String := "$" ++ toString i
+/-- the reference reading of a model macro: parameters are named by position (`$`, `$$`, `$$$`, …: spellings no
+identifier has) -/
+def paramName (i : Nat) : String := String.ofList (List.replicate (i + 1) '$')
 
 def specBodyTok : Tok → Tok
   | .arg i => .id (paramName i)
